@@ -261,6 +261,22 @@ func (a arithSpec) region() bool {
 	return true
 }
 
+// tooMany: the observed total is more than one above the minimum although 8 * minimum < 2^53 (upper_region)
+func tooMany(a arithSpec, o arithObs) bool {
+	if o.PctErr || o.DErr {
+		return false
+	}
+	m := a.mMin()
+	if mul(big.NewInt(8), m).Cmp(two53) >= 0 {
+		return false
+	}
+	tot := bi(int64(o.D))
+	if a.normal() {
+		tot.Add(tot, bi(a.N))
+	}
+	return tot.Cmp(new(big.Int).Add(m, big.NewInt(1))) > 0
+}
+
 func (a arithSpec) checked() bool {
 	return a.normal() || (a.fromZero() && a.cached() && a.Thr > 0 && a.CCPU > 0 && a.CMem > 0 && a.CPUReq >= 0 && a.MemReq >= 0)
 }
@@ -940,9 +956,9 @@ func genTotals(rng *rand.Rand, tier string) []calcSpec {
 				PermPods: pp[i%len(pp)], PermNodes: np[(i*7+1)%len(np)]})
 		}
 	}
-	nSmall, nRand, nMal := 40, 900, 300
+	nSmall, nRand, nMal := 80, 1100, 400
 	if tier == "thorough" {
-		nSmall, nRand, nMal = 400, 40000, 12000
+		nSmall, nRand, nMal = 800, 55000, 20000
 	}
 	// random small snapshots, every permutation of <= 4 pods
 	for i := 0; i < nSmall; i++ {
@@ -1101,8 +1117,10 @@ func calcEngine(prop, tier string, rng *rand.Rand, replay []json.RawMessage) (*E
 			region := a.region()
 			if replay == nil {
 				s.Known = ""
-				if prop == "C05" && a.checked() && !region {
-					s.Known = "K1" // outside the proved magnitude region: a shortfall there is the recorded finding
+				if prop == "C05" && a.checked() && !region && !tooMany(a, o) {
+					// outside the proved magnitude region: a SHORTFALL there is the recorded finding K1
+					// (an answer more than one above the minimum inside the at-most-one-more region is never excused)
+					s.Known = "K1"
 					known++
 				}
 			}
